@@ -128,6 +128,12 @@ func inputs15(cd codec15, seed int64) map[string][]byte {
 			return 0
 		})
 	}
+	// many rows: on both sides of 65536 rows and of 1 MiB of column data (steps at which a
+	// decoder may start to read in pieces)
+	for _, rows := range []int{65535, 65536, 65537, (1<<20)/w + 1} {
+		rows := rows
+		pat(fmt.Sprintf("many/%d", rows), rows, func(r, i int) byte { return byte((r*131 + i*7 + r>>8) & 0xff) })
+	}
 	f := vk.NewFiller(seed, uint64(w))
 	fb := f.Bytes(7 * w)
 	if cd.name == "Bool" {
@@ -152,7 +158,7 @@ func rowsSig(col proto.Column) string {
 
 // C15 — the pure-Go build and the default build of the codecs behave identically.
 func C15(c *vk.Ctx) {
-	c.Rule("each of the 35 column codecs that exist in two build variants (33 generated + Bool + UUID) x inputs {all 256 values for 1-byte elements, all 65536 values for 2-byte elements, for wider elements 1..5 rows of the patterns zero / all-ones / counter / high bit / low byte and a 7-row filler, 0 rows} x target {fresh, reset after use} x DecodeColumn of the whole input and of EVERY truncation of it x the same column read twice in a row from one reader (plain; as two LZ4 frames; as two None frames; as one column spread over two ZSTD frames followed by a third frame) x EncodeColumn into an empty buffer and into buffers pre-filled with 1..9 bytes x WriteColumn+Flush. Each build checks encode(decode(x)) = x and prefix preservation itself; the driver then compares the two builds' transcripts (decoded row values, produced bytes, error classes) line by line. Bool is fed only the bytes both builds accept (0/1); other bytes are decoded in each build only to show that nothing panics. distinct_nontrivial = transcript lines.")
+	c.Rule("each of the 35 column codecs that exist in two build variants (33 generated + Bool + UUID) x inputs {all 256 values for 1-byte elements, all 65536 values for 2-byte elements, for wider elements 1..5 rows of the patterns zero / all-ones / counter / high bit / low byte and a 7-row filler, 0 rows, and 65535 / 65536 / 65537 rows and one row more than 1 MiB of column data for every codec} x target {fresh, reset after use} x DecodeColumn of the whole input and of EVERY truncation of it x the same column read twice in a row from one reader (plain; as two LZ4 frames; as two None frames; as one column spread over two ZSTD frames followed by a third frame) x EncodeColumn into an empty buffer and into buffers pre-filled with 1..9 bytes x WriteColumn+Flush. Each build checks encode(decode(x)) = x and prefix preservation itself; the driver then compares the two builds' transcripts (decoded row values, produced bytes, error classes) line by line. Bool is fed only the bytes both builds accept (0/1); other bytes are decoded in each build only to show that nothing panics. distinct_nontrivial = transcript lines.")
 	for ci, cd := range codecs15() {
 		if c.Only == "" && !c.Mine(int64(ci)) {
 			continue
